@@ -1,11 +1,11 @@
 CONSTANTS
   K = 2
   EchoBuf = 1
-  NIns = {0, 1, 2, 3, 4, 6}
-  NOuts = {0, 1, 3, 4}
-  NErrs = {0, 1, 3, 4}
+  NIns = {0, 1, 3, 4, 6}
+  NOuts = {0, 1, 3}
+  NErrs = {0, 3}
   WChunks = {0, 1, 2}
-  RChunks = {0, 1, 2}
+  RChunks = {0, 1}
   IoStatuses = {"c3"}
   Codes = {"c0", "c3"}
   Sigs = {"s15", "s9"}
